@@ -3,7 +3,10 @@
      strings are hex UTF-16 units; "-" = empty string; "0" = null pointer / not formatted; values as in drv_json
    output line: <hex of sentry_format src_sentry_cfg qtver eventid m> <verdict>
      verdict = 1/0 = prop_c18_b m <implhex decoded>, "-" when implhex is "?"
-   mode "iso": input <ms>, output <hex of iso_utc ms> <iso_decode of it, or -> *)
+     optional suffix "|" + attribute steps applied (apply_ops / with_ops of the model) before formatting:
+       S <n> (k v)*n = OSetAll   U <n> (k v)*n = OUpdate   A <k> <v> = OSet   R <k> = ORemove
+   mode "iso": input <ms>, output <hex of iso_utc ms> <iso_decode of it, or ->
+   mode "ids": input line = the event ids of a run (plain text, blank separated), output 1/0 = ids_ok_b *)
 open Sentry_model
 let rec pos_of_int n = if n = 1 then XH else if n land 1 = 1 then XI (pos_of_int (n lsr 1)) else XO (pos_of_int (n lsr 1))
 let n_of_int n = if n = 0 then N0 else Npos (pos_of_int n)
@@ -39,15 +42,29 @@ let () =
   if mode = "iso" then begin
     let s = iso_utc (z_of_int (int_of_string line)) in
     print_endline (hex s ^ " " ^ (match iso_decode s with Some z -> string_of_int (int_of_z z) | None -> "-"))
+  end else if mode = "ids" then begin
+    let ids = List.filter (fun x -> x <> "") (String.split_on_char ' ' line) in
+    let units x = List.init (String.length x) (fun i -> n_of_int (Char.code x.[i])) in
+    print_endline (if ids_ok_b (List.map units ids) then "1" else "0")
   end else
   match String.split_on_char ' ' line with
   | ms :: tid :: qtver :: evid :: impl :: ty :: msg :: fmt :: cat :: file :: fn :: ln :: na :: rest ->
-    let rec attrs n toks acc = if n = 0 then List.rev acc else
+    let rec attrs n toks acc = if n = 0 then (List.rev acc, toks) else
       (match toks with k :: r -> let (v, r') = value r in attrs (n-1) r' ((unhex k, v) :: acc) | [] -> failwith "a") in
+    let (base, rest') = attrs (int_of_string na) rest [] in
+    let rec ops toks acc = match toks with
+      | [] -> List.rev acc
+      | "|" :: r -> ops r acc
+      | "S" :: n :: r -> let (l, r') = attrs (int_of_string n) r [] in ops r' (OSetAll l :: acc)
+      | "U" :: n :: r -> let (l, r') = attrs (int_of_string n) r [] in ops r' (OUpdate l :: acc)
+      | "A" :: k :: r -> let (v, r') = value r in ops r' (OSet (unhex k, v) :: acc)
+      | "R" :: k :: r -> ops r (ORemove (unhex k) :: acc)
+      | _ -> failwith "op" in
+    let steps = ops rest' [] in
     let lm = { mtype = n_of_int (int_of_string ty); mtext = unhex msg; mfmt = opt fmt; mfile = opt file; mfunc = opt fn;
                mcat = opt cat; mline = z_of_int (int_of_string ln); mtime = []; mtid = z_of_int (int_of_string tid);
-               mattrs = attrs (int_of_string na) rest [] } in
-    let m = { s_msg = lm; s_time_ms = z_of_int (int_of_string ms) } in
+               mattrs = base } in
+    let m = with_ops { s_msg = lm; s_time_ms = z_of_int (int_of_string ms) } steps in
     let v = if impl = "?" then "-" else if prop_c18_b m (unhex impl) then "1" else "0" in
     print_endline (hex (sentry_format_src (unhex qtver) (unhex evid) m) ^ " " ^ v)
   | _ -> print_endline "? ?" done with End_of_file -> ()
